@@ -9,8 +9,10 @@ PID = "C11"
 IMPORTS = polylib.IMPORTS
 MODEL_VO = polylib.MODEL_VO
 EXHAUSTIVE = False
-RULE = ("poly.ring / poly.calc cases for every pair of lengths 0..9 (the empty polynomial and degrees 0..8, either operand longer) "
-        "over Rat (small fractions), f64 and Complex<f64> (small integers: every intermediate exactly representable), "
+RULE = ("poly.ring cases for every pair of lengths 0..9 (the empty polynomial and degrees 0..8, either operand longer) "
+        "over Rat (small fractions), f64 and Complex<f64> (small integers: every intermediate exactly representable; in the quick tier each "
+        "pair of non-empty lengths goes to one of the two float kinds, by parity of lp+lq; thorough: all pairs for all kinds, 4 value samples); "
+        "poly.calc for every length of p with 5 lengths of q (all pairs in the thorough tier), "
         "derivative orders 0..len+1 (= degree+2, one beyond the quantifier); poly.access for every length 0..5 x every index 0..len+1; "
         "poly.ctor; values sampled (seeded), shapes exhaustive; distinct = distinct executor line; "
         "non-trivial = both operands of degree >= 1 (ring/calc), non-empty polynomial (access)")
@@ -53,6 +55,10 @@ def generate(rng, tier):
         g = rng.fork("ring-" + elt)
         for lp in range(L + 1):
             for lq in range(L + 1):
+                # quick tier: every pair over Rat; the float kinds share the pairs (f64: lp+lq even, Complex: odd;
+                # both when an operand is empty) -- printing bit patterns dominates the model run
+                if tier != "thorough" and elt != 'rat' and min(lp, lq) > 0 and (lp + lq) % 2 != (0 if elt == 'f64' else 1):
+                    continue
                 for _ in range(reps):
                     p, q = rpoly(g, elt, lp), rpoly(g, elt, lq)
                     x, s = xval(g, elt), sval(g, elt)
